@@ -15,7 +15,8 @@ RULE = (
     "for six pairs of placements in a generated module file (module-level function + its caller through a "
     "call-path selector, method + same-named module-level function and vice versa, function defined inside "
     "a function + its enclosing function, method of a nested class + method, functools.wraps-decorated "
-    "function + plain function) and both codefind cache modes: breadth-first search over all operation "
+    "function + plain function) and both codefind cache modes, and with the generated file run as the main "
+    "module (references with an empty module part): breadth-first search over all operation "
     "sequences up to the depth bound over {activate / deactivate (any order) a probe on the primary function "
     "by name / by reference and on the secondary by name / by reference, call the primary, call the "
     "secondary, resolve both references}; the module is re-imported for every replay. At every resolve both "
@@ -97,6 +98,7 @@ PAIRS = [
     ("nested-class-method", "method"),
     ("decorated", "top"),
 ]
+MAIN_PAIRS = {"quick": [("top", "caller-path"), ("nested-class-method", "method")], "thorough": PAIRS}
 SLOTS = ["N1", "R1", "Q1", "Q2"]  # primary by name / by reference, secondary by name / by reference
 _COUNTER = [0]
 _DIRS = []
@@ -136,7 +138,7 @@ class Target:
 
 
 class World:
-    def __init__(self, pair, cache_mode):
+    def __init__(self, pair, cache_mode, as_main=False):
         from codefind import code_registry
 
         _COUNTER[0] += 1
@@ -147,7 +149,24 @@ class World:
             # codefind keys its caches on them: give every generated module its own line numbers
             f.write(f"# world {_COUNTER[0]}\n" + "\n" * (_COUNTER[0] % 5000) + MODULE_SRC)
         importlib.invalidate_caches()
-        self.mod = importlib.import_module(self.modname)
+        self.as_main = as_main
+        self.real_main = sys.modules.get("__main__")
+        if as_main:
+            # the generated file is run as the script: its functions live in `__main__` and their
+            # references have an empty module part ('//top'); it stays sys.modules['__main__'] for
+            # the life of this world
+            import importlib.util as _ilu
+
+            spec = _ilu.spec_from_file_location("__main__", path)
+            self.mod = _ilu.module_from_spec(spec)
+            sys.modules["__main__"] = self.mod
+            try:
+                spec.loader.exec_module(self.mod)
+            except BaseException:
+                sys.modules["__main__"] = self.real_main
+                raise
+        else:
+            self.mod = importlib.import_module(self.modname)
         self.path = path
         self.p = Target(self.mod, pair[0])
         self.q = Target(self.mod, pair[1])
@@ -158,6 +177,8 @@ class World:
         code_registry.last_cost = 0
 
     def dispose(self):
+        if self.as_main and sys.modules.get("__main__") is self.mod:
+            sys.modules["__main__"] = self.real_main
         sys.modules.pop(self.modname, None)
         try:
             os.unlink(self.path)
@@ -166,9 +187,10 @@ class World:
 
 
 class System:
-    def __init__(self, pair, cache_mode):
+    def __init__(self, pair, cache_mode, as_main=False):
         self.pair = pair
         self.cache_mode = cache_mode
+        self.as_main = as_main
         self.path_pair = pair[1] == "caller-path"
 
     def initial_model(self):
@@ -214,7 +236,7 @@ class System:
 
     def fresh(self):
         world.reset_context()
-        return World(self.pair, self.cache_mode)
+        return World(self.pair, self.cache_mode, self.as_main)
 
     def _ref(self, t):
         from ptera import refstring
@@ -223,6 +245,8 @@ class System:
         code_registry.last_cost = 0
         if t.ref is None:
             t.ref = refstring(t.obj)
+            if self.as_main and not t.ref.startswith("//"):
+                raise AssertionError(f"harness: reference of a function of the main module is {t.ref!r}")
         return t.ref
 
     def _selector(self, w, slot):
@@ -312,15 +336,18 @@ def units(tier):
     out = []
     for pair in PAIRS:
         for cache_mode in (False, True):
-            out.append(("bfs", pair, cache_mode))
+            out.append(("bfs", pair, cache_mode, False))
+    # the generated module run as the main script: references of the form '//name'
+    for pair in MAIN_PAIRS[tier]:
+        out.append(("bfs", pair, False, True))
     return out
 
 
 def work(unit, tier):
     part = new_partial()
-    _, pair, cache_mode = unit
-    placement = "+".join(pair)
-    system = System(tuple(pair), cache_mode)
+    _, pair, cache_mode, as_main = unit
+    placement = "+".join(pair) + ("@main" if as_main else "")
+    system = System(tuple(pair), cache_mode, as_main)
     try:
         res = H.explore(system, BOUNDS[tier]["depth"], audit_depth=BOUNDS[tier].get("merge_audit_depth", 0))
     finally:
@@ -349,7 +376,7 @@ def work(unit, tier):
 
 
 def replay(case):
-    system = System(tuple(case["placement"].split("+")), case["cache_mode"])
+    system = System(tuple(case["placement"].replace("@main", "").split("+")), case["cache_mode"], case["placement"].endswith("@main"))
     hist = tuple(tuple(o) for o in case["history"])
     try:
         w, m, problem, at = H.run_history(system, hist)
